@@ -20,6 +20,22 @@ Theorem C06_snapshot_reads : forall t s ops d r, quiet t ops ->
 Proof. intros t s ops d r Hq. split; [reflexivity | apply snapshot_is_begin_state; exact Hq]. Qed.
 Print Assumptions C06_snapshot_reads.
 
+(* a listing of the collection inside a transaction shows exactly the documents that exist in its view (its own
+   uncommitted creates included, documents committed by others since its begin excluded), changes nothing, and depends
+   on the transaction's own operations only *)
+Theorem C06_listing_is_view : forall s t obs,
+  snd (mstep s (TList t obs)) = PList (view_docs (gettx s t)) /\
+  (forall d, In d (view_docs (gettx s t)) <-> is_some (tview (gettx s t) d) = true) /\
+  fst (mstep s (TList t obs)) = s.
+Proof. exact list_is_view. Qed.
+Print Assumptions C06_listing_is_view.
+
+Theorem C06_listing_isolated : forall t s ops1 ops2 obs, quiet t ops1 -> quiet t ops2 ->
+  filter (mine t) ops1 = filter (mine t) ops2 ->
+  snd (mstep (run s ops1) (TList t obs)) = snd (mstep (run s ops2) (TList t obs)).
+Proof. exact listing_isolated. Qed.
+Print Assumptions C06_listing_isolated.
+
 (* the committed state (what every other transaction's new snapshot and every non-transactional call sees)
    changes only at a successful commit, and then by the whole write set at once *)
 Theorem C06_atomic_visibility : forall s o,
